@@ -102,7 +102,7 @@ func (s *scanner) peek() (*pb.Result, error) {
 		// Start up a renewer
 		renewCtx, cancel := context.WithCancel(s.rpc.Context())
 		s.renewCancel = cancel
-		go s.renewLoop(renewCtx, s.startRow)
+		go s.renewLoop(renewCtx, s.startRow, s.curRegionScannerID)
 	}
 
 	// fetch cannot return zero results
@@ -397,7 +397,7 @@ func (s *scanner) closeRegionScanner() {
 }
 
 // renews a scanner by resending scan request with renew = true
-func (s *scanner) renew(ctx context.Context, startRow []byte) error {
+func (s *scanner) renew(ctx context.Context, startRow []byte, scannerID uint64) error {
 	if err := ctx.Err(); err != nil {
 		return err
 	}
@@ -405,7 +405,7 @@ func (s *scanner) renew(ctx context.Context, startRow []byte) error {
 		s.rpc.Table(),
 		startRow,
 		nil,
-		hrpc.ScannerID(s.curRegionScannerID),
+		hrpc.ScannerID(scannerID),
 		hrpc.Priority(s.rpc.Priority()),
 		hrpc.RenewalScan(),
 	)
@@ -416,7 +416,9 @@ func (s *scanner) renew(ctx context.Context, startRow []byte) error {
 	return err
 }
 
-func (s *scanner) renewLoop(ctx context.Context, startRow []byte) {
+// scannerID is passed in because s.curRegionScannerID is only to be accessed
+// by the goroutine that calls Next and Close.
+func (s *scanner) renewLoop(ctx context.Context, startRow []byte, scannerID uint64) {
 	scanRenewers.Inc()
 	t := time.NewTicker(s.rpc.RenewInterval())
 	defer func() {
@@ -427,7 +429,7 @@ func (s *scanner) renewLoop(ctx context.Context, startRow []byte) {
 	for {
 		select {
 		case <-t.C:
-			if err := s.renew(ctx, startRow); err != nil {
+			if err := s.renew(ctx, startRow, scannerID); err != nil {
 				s.logger.Error("error renewing scanner", "err", err)
 				return
 			}
